@@ -715,7 +715,7 @@ func (g *fgen) genBody(depth int) []fact {
 			}
 		case k < 88 && depth < 4:
 			out = append(out, fact{kind: "sub", sub: g.genSub(depth+1, false)})
-		case k < 95 && depth < 2 && g.creates < 3:
+		case k < 95 && depth < 3 && g.creates < 3:
 			g.creates++
 			out = append(out, fact{kind: "create", sub: g.genSub(depth+1, true)})
 		default:
@@ -739,7 +739,9 @@ func (g *fgen) genSub(depth int, create bool) *fsub {
 		s.op = []byte{opCREATE, opCREATE2}[g.r.Intn(2)]
 		s.salt = uint64(g.r.Intn(2))  // few salts: CREATE2 collisions happen
 		s.body = g.genBody(depth + 2) // shallow init code
-		s.runtime = [][]byte{{}, {0x00}, {0x60, 0x00}, {0xef, 0x00}}[g.r.Intn(4)]
+		// runtime code returned by the init code: empty, tiny, 0xEF-prefixed, or large enough (600 / 20000 zero bytes = 120k / 4M gas of
+		// code deposit) that a creation inside a gas-limited frame fails at the deposit, after the init code ran
+		s.runtime = [][]byte{{}, {0x00}, {0x60, 0x00}, {0xef, 0x00}, make([]byte, 600), make([]byte, 20000)}[g.r.Intn(6)]
 		s.end = []byte{opRETURN, opRETURN, opRETURN, opREVERT, opINVALID, opSTOP}[g.r.Intn(6)]
 		s.addr = g.newAddr(0xb0) // blob holding the init code
 		return s
@@ -847,7 +849,9 @@ func (g *fgen) compileBody(body []fact, end byte, endLen int, runtime []byte, is
 		if isInit && end == opRETURN {
 			// return the runtime code: store its bytes at 0x700
 			for i, b := range runtime {
-				a.Op(opPUSH1, b).PushU(uint64(0x700 + i)).Op(0x53)
+				if b != 0 || len(runtime) <= 2 {
+					a.Op(opPUSH1, b).PushU(uint64(0x700 + i)).Op(0x53)
+				}
 			}
 			a.PushU(uint64(len(runtime))).PushU(0x700).Op(opRETURN)
 		} else {
@@ -1100,7 +1104,7 @@ func runFrameCase(r *Rng, em *Emitter, label string, tags string) {
 		v = "leaked=" + listStr(leaked) + "_lost=" + listStr(lost)
 	}
 	em.Op("C04", "S atomic", v)
-	em.Op("C07,C03", "S wf", checkTreeWF(env.evm.Tracer(), rounds))
+	em.Op("C07,C03", "S wf", checkTreeWF(env.evm.Tracer(), rounds, false))
 	em.Op("C05", "S jp", lg.specJoinPoints())
 	em.Op("C06", "S gas", lg.specGas())
 	em.Op("C08", "S node", lg.specNodes())
@@ -1113,7 +1117,7 @@ func runFrameCase(r *Rng, em *Emitter, label string, tags string) {
 // checkTreeWF evaluates C07's statement on the implementation's call tree through its exported accessors.
 // checkTreeWF: the property's tree conditions on the real structure; topLevel is the number of invocations the host made
 // (every one of them, and nothing else, is a node without parent)
-func checkTreeWF(t *vm.Tracer, topLevel int) string {
+func checkTreeWF(t *vm.Tracer, topLevel int, allowOpen bool) string {
 	ct := t.CallTree()
 	n := uint64(0)
 	for ct.FindCall(n) != nil {
@@ -1125,10 +1129,10 @@ func checkTreeWF(t *vm.Tracer, topLevel int) string {
 			roots++
 		}
 	}
-	if roots != topLevel {
+	if topLevel >= 0 && roots != topLevel {
 		return fmt.Sprintf("%d_nodes_without_parent_for_%d_top_level_invocations", roots, topLevel)
 	}
-	if ct.Current() != nil {
+	if ct.Current() != nil && !allowOpen {
 		return fmt.Sprintf("call_%d_left_open", ct.Current().Index)
 	}
 	for i := uint64(0); i < n; i++ {
